@@ -343,10 +343,9 @@ theorem lost_only_tagged (s : Irc) (op : Op) (f : Bool) (src out : Msg) (t : Nat
     (h : Ev.lost f src out t ∈ (step s op).2) : out.oid ∈ s.echoed :=
   (step_echo s op).1 f src out t h
 
-/-- … and the tagged objects are exactly objects that were handed to the driver before: in a
-whole life, every tagged object is the `out` of an earlier `took` event. -/
-theorem tagged_were_sent (c : Cfg) (now : Nat) (ops : List Op) :
-    EchoInv (life c now ops).1 (life c now ops).2 := by
+/-- … and since the repair of `takeMsg` (the emulated echo is a tagged *copy*) the tagged objects
+are only such copies, made inside the bot: no message a caller hands over ever carries the tag. -/
+theorem tagged_are_echo_copies (c : Cfg) (now : Nat) (ops : List Op) : EchoInv (life c now ops).1 := by
   unfold life
   dsimp only
   apply run_echoInv
@@ -359,22 +358,7 @@ theorem tagged_were_sent (c : Cfg) (now : Nat) (ops : List Op) :
     · exact (sendConnect_echo _ _).1
   rw [this] at ho; cases ho
 
-/-
-The statement one would like (`conservation` without the `lostOf` term):
-
-  theorem conservation_full (c : Cfg) (now : Nat) (ops : List Op) :
-      (accOf (life c now ops).2).Perm
-        (tookOf (life c now ops).2 ++ dropOf (life c now ops).2 ++
-          discOf (life c now ops).2 ++ (life c now ops).1.pending)
-
-is FALSE on the pinned tree (known finding C19-reused-object-lost): queueing the same `IrcMsg`
-object again after it was sent once loses it.  `conservation_partial` is what holds; the
-counter-example is `conservation_full_counterexample`.
--/
-
-/-- conservation without a loss term, under the explicit condition that the trace has no `lost`
-event (by `lost_only_tagged` + `tagged_were_sent`: no object is handed to the filter chain's
-end twice as PRIVMSG/NOTICE/TAGMSG) -/
+/-- conservation without a loss term for a trace that has no `lost` event -/
 theorem conservation_partial (c : Cfg) (now : Nat) (ops : List Op)
     (hno : lostOf (life c now ops).2 = []) :
     (accOf (life c now ops).2).Perm
@@ -384,56 +368,52 @@ theorem conservation_partial (c : Cfg) (now : Nat) (ops : List Op)
   rw [hno, append_nil] at this
   exact this
 
-/-- **Exactly the re-used objects are at risk.**  If every `queueMsg`/`sendMsg` is given an
-object that was not handed to the bot before (`OpsFresh`), and every outFilter returns the object
-it got or one it has just built (`FilterOk`) — under every configuration installed along the
-way — then no message is ever lost: the loss term of `conservation` is empty … -/
-theorem no_loss_fresh_objects (c : Cfg) (hc : ∀ f ∈ c.filters, FilterOk f) (now : Nat) (ops : List Op)
-    (ho : OpsFresh [] ops) : lostOf (life c now ops).2 = [] :=
-  life_fresh c hc now ops ho
+/-- **Nothing is lost** (after the repair; this was the known finding C19-reused-object-lost):
+whatever callers queue or send — the same object any number of times — and whatever the filters
+do, as long as each returns its argument or a message it has just built (`FilterOk`; the only
+way to lose a message is to send back an echo copy the bot itself made), no message is swallowed
+by the echo-emulation assertion … -/
+theorem no_loss (c : Cfg) (hc : ∀ f ∈ c.filters, FilterOk f) (now : Nat) (ops : List Op)
+    (ho : OpsExt ops) : lostOf (life c now ops).2 = [] :=
+  life_tag c hc now ops ho
 
-/-- … and the conservation law holds without it: every accepted message is handed to the driver,
+/-- … hence **the conservation law in full**: every accepted message is handed to the driver,
 dropped by a filter, discarded by `reset()` or still waiting — exactly once. -/
-theorem conservation_fresh_objects (c : Cfg) (hc : ∀ f ∈ c.filters, FilterOk f) (now : Nat)
-    (ops : List Op) (ho : OpsFresh [] ops) :
+theorem conservation_full (c : Cfg) (hc : ∀ f ∈ c.filters, FilterOk f) (now : Nat)
+    (ops : List Op) (ho : OpsExt ops) :
     (accOf (life c now ops).2).Perm
       (tookOf (life c now ops).2 ++ dropOf (life c now ops).2 ++
         discOf (life c now ops).2 ++ (life c now ops).1.pending) :=
-  conservation_partial c now ops (no_loss_fresh_objects c hc now ops ho)
+  conservation_partial c now ops (no_loss c hc now ops ho)
 
 /-! ## counter-example and non-vacuity -/
 
 def exCfg : Cfg :=
   { throttle := 1, joinLimit := 3, dupRefuse := true, pingOn := false, pingInterval := 120,
-    connectMsgs := [⟨[], ['N', 'I', 'C', 'K'], [['b', 'o', 't']]⟩], filters := [] }
+    connectMsgs := [⟨[], ['N', 'I', 'C', 'K'], [['b', 'o', 't']], []⟩], filters := [] }
 
 def privmsg (n : Nat) : Msg :=
-  ⟨.ext n, ⟨[], ['P', 'R', 'I', 'V', 'M', 'S', 'G'], [['#', 'a'], ['h', 'i']]⟩⟩
-def joinMsg (n : Nat) : Msg := ⟨.ext n, ⟨[], ['J', 'O', 'I', 'N'], [['#', 'a']]⟩⟩
-def joinB (n : Nat) : Msg := ⟨.ext n, ⟨[], ['J', 'O', 'I', 'N'], [['#', 'b']]⟩⟩
-def quitMsg (n : Nat) : Msg := ⟨.ext n, ⟨[], ['Q', 'U', 'I', 'T'], []⟩⟩
-def modeMsg (n : Nat) : Msg := ⟨.ext n, ⟨[], ['M', 'O', 'D', 'E'], [['#', 'a']]⟩⟩
+  ⟨.ext n, ⟨[], ['P', 'R', 'I', 'V', 'M', 'S', 'G'], [['#', 'a'], ['h', 'i']], []⟩⟩
+def joinMsg (n : Nat) : Msg := ⟨.ext n, ⟨[], ['J', 'O', 'I', 'N'], [['#', 'a']], []⟩⟩
+def joinB (n : Nat) : Msg := ⟨.ext n, ⟨[], ['J', 'O', 'I', 'N'], [['#', 'b']], []⟩⟩
+def quitMsg (n : Nat) : Msg := ⟨.ext n, ⟨[], ['Q', 'U', 'I', 'T'], [], []⟩⟩
+def modeMsg (n : Nat) : Msg := ⟨.ext n, ⟨[], ['M', 'O', 'D', 'E'], [['#', 'a']], []⟩⟩
 
-/-- the witness of C19-reused-object-lost: the same object queued again after it was sent -/
+/-- the witness of the former finding C19-reused-object-lost: the same object queued again after
+it was sent -/
 def reuseOps : List Op :=
   [.connected, .take, .queue (privmsg 0), .tick 2, .take, .queue (privmsg 0), .tick 2, .take]
 
-/-- **Counter-example to conservation without a loss term**: both `queueMsg` calls answer True,
-one PRIVMSG is handed to the driver, the other is neither sent, dropped, discarded nor waiting. -/
-theorem conservation_full_counterexample :
-    ¬ (accOf (life exCfg 1000 reuseOps).2).Perm
-      (tookOf (life exCfg 1000 reuseOps).2 ++ dropOf (life exCfg 1000 reuseOps).2 ++
-        discOf (life exCfg 1000 reuseOps).2 ++ (life exCfg 1000 reuseOps).1.pending) := by decide
-
-example : lostOf (life exCfg 1000 reuseOps).2 = [privmsg 0] := by decide
--- `lost_only_tagged` has instances:
-example : Ev.lost false (privmsg 0) (privmsg 0) 1004 ∈
-    (step (run (init exCfg 1000).1 (reuseOps.take 7)).1 .take).2 := by decide
+-- both copies are now handed to the driver (`no_loss` / `conservation_full` apply: `OpsExt`)
+example : OpsExt reuseOps ∧ lostOf (life exCfg 1000 reuseOps).2 = [] ∧
+    tookOf (life exCfg 1000 reuseOps).2 = [⟨.int 0, ⟨[], ['N', 'I', 'C', 'K'], [['b', 'o', 't']], []⟩⟩,
+      privmsg 0, privmsg 0] := by
+  refine ⟨⟨⟨0, rfl⟩, ⟨0, rfl⟩, trivial⟩, by decide, by decide⟩
 
 /-- a quitting bot with mixed traffic, a dropping filter and the clock moving -/
 def dropQuit : Filter := fun _ m => if m.cmd = ['W', 'H', 'O'] then none else some m
 def busyCfg : Cfg := { exCfg with filters := [dropQuit] }
-def whoMsg (n : Nat) : Msg := ⟨.ext n, ⟨[], ['W', 'H', 'O'], [['#', 'a']]⟩⟩
+def whoMsg (n : Nat) : Msg := ⟨.ext n, ⟨[], ['W', 'H', 'O'], [['#', 'a']], []⟩⟩
 def busyOps : List Op :=
   [.connected, .take, .queue (privmsg 0), .queue (joinMsg 1), .queue (modeMsg 2), .queue (quitMsg 3),
    .queue (joinB 4), .send (whoMsg 5), .send (modeMsg 6), .queue (privmsg 0), .die, .queue (privmsg 7),
@@ -460,13 +440,7 @@ example : ∃ a b d, (life busyCfg 1000 busyOps).2 =
   refine ⟨(life busyCfg 1000 busyOps).2.take 19, [Ev.rotated (joinB 4) 1012],
     (life busyCfg 1000 busyOps).2.drop 22, by decide, ?_⟩
   intro e he ms; simp at he; subst he; simp
--- `no_loss_fresh_objects`: the busy run hands every object over once (the refused duplicate of
--- `privmsg 0` aside, which is why it uses fresh numbers here) and its filter is well behaved
-def freshOps : List Op :=
-  [.connected, .take, .queue (privmsg 0), .queue (joinMsg 1), .send (whoMsg 5), .queue (privmsg 8), .die,
-   .tick 2, .take, .tick 2, .take, .tick 4, .take, .take]
-example : OpsFresh [] freshOps ∧ (tookOf (life busyCfg 1000 freshOps).2).length = 3 := by
-  refine ⟨⟨0, rfl, by simp, 1, rfl, by simp, 5, rfl, by simp, 8, rfl, by simp, trivial⟩, by decide⟩
+-- `no_loss`: the filter of the busy run is well behaved
 example : ∀ f ∈ busyCfg.filters, FilterOk f := by
   intro f hf
   simp [busyCfg] at hf
